@@ -1007,6 +1007,9 @@ func (fc *fnCtx) loopHeader(li *loopInfo, st *State) {
 			}
 		}
 		fc.vals[phi] = v
+		if phi.Comment != "" && v.Addr == nil && len(v.Tup) == 0 {
+			st.setLocal(phi.Comment, v, false) // blocks after the loop exit still name the variable
+		}
 	}
 	// auto invariant for range-index loops: -1 <= i
 	for _, phi := range phis {
